@@ -149,9 +149,13 @@ func (r *RibEntry) updateNexthopsEnc() {
 		}
 	}
 
-	// Add "flattened" set of nexthops
-	for nexthop, cost := range minCostRoutes {
-		FibStrategyTable.InsertNextHopEnc(r.Name, nexthop, cost)
+	// Add "flattened" set of nexthops.
+	// A prefix without routes of its own gets no FIB entry (longest-prefix match
+	// falls back to the ancestor entries, which hold the inherited nexthops).
+	if len(r.routes) > 0 {
+		for nexthop, cost := range minCostRoutes {
+			FibStrategyTable.InsertNextHopEnc(r.Name, nexthop, cost)
+		}
 	}
 
 	// Trigger update for all children for inheritance
